@@ -46,6 +46,84 @@ KNOWN_VARIANT = "bond_order_cur"
 NONLATTICE_TOL = 2e-3
 
 
+# ----------------------------------------------------------------------------- translator
+def translate(ctx):
+    """read the traversal of trajectory.py:_parent_first_bonds with Python's ast and regenerate coq/Gen/WholeWalk.v
+    (a walk_spec record); Props/C11.v proves it equal to the spec the model implements.  A shape outside the small
+    accepted grammar raises (=> degraded: the correspondence alone ties the model)."""
+    import ast
+    from common import REPO
+    src = open(os.path.join(REPO, "mdtraj", "core", "trajectory.py")).read()
+    tree = ast.parse(src)
+    fn = next((n for n in tree.body if isinstance(n, ast.FunctionDef) and n.name == "_parent_first_bonds"), None)
+    if fn is None:
+        raise ValueError("trajectory.py has no _parent_first_bonds (bond order as found at the pinned commit)")
+    un = ast.unparse
+
+    def is_idx(node, arr, var):          # arr[var] or arr[var.index]
+        return isinstance(node, ast.Subscript) and un(node.value) == arr and un(node.slice) in (var, var + ".index")
+
+    loops = [n for n in fn.body if isinstance(n, ast.For)]
+    bond_loop = next((l for l in loops if "bonds" in un(l.iter)), None)
+    root_loop = next((l for l in loops if un(l.iter).startswith("range(")), None)
+    if bond_loop is None or root_loop is None or not isinstance(bond_loop.target, ast.Tuple) or len(bond_loop.target.elts) != 2:
+        raise ValueError("unrecognised loop structure")
+    b0, b1 = [un(e) for e in bond_loop.target.elts]
+    appends = set()
+    for st in bond_loop.body:
+        c = st.value if isinstance(st, ast.Expr) else None
+        if not (isinstance(c, ast.Call) and isinstance(c.func, ast.Attribute) and c.func.attr == "append" and len(c.args) == 1):
+            raise ValueError("unrecognised statement in the adjacency loop: " + un(st))
+        tgt, val = c.func.value, un(c.args[0])
+        for x, y in ((b0, b1), (b1, b0)):
+            if is_idx(tgt, "neighbors", x) and val in (y, y + ".index"):
+                appends.add((x, y))
+    if not appends:
+        raise ValueError("adjacency loop does not append to neighbors[...]")
+    adj_both = appends == {(b0, b1), (b1, b0)}
+    root = un(root_loop.target)
+    roots_ascending = un(root_loop.iter) in ("range(n_atoms)", "range(0, n_atoms)", "range(topology.n_atoms)")
+    body = root_loop.body
+    wl = next((n for n in body if isinstance(n, ast.While)), None)
+    if wl is None or un(wl.test) != "stack" or "stack = [%s]" % root not in [un(n) for n in body]:
+        raise ValueError("unrecognised root loop body")
+    if not any(isinstance(n, ast.If) and un(n.test) == "placed[%s]" % root and un(n.body[0]) == "continue" for n in body):
+        raise ValueError("root loop does not skip placed roots")
+    if "placed[%s] = True" % root not in [un(n) for n in body]:
+        raise ValueError("root is not marked placed")
+    pop = wl.body[0]
+    if not (isinstance(pop, ast.Assign) and un(pop.value) in ("stack.pop()", "stack.pop(-1)")):
+        raise ValueError("unrecognised pop: " + un(pop))          # e.g. a breadth-first rewrite: correspondence decides
+    atom = un(pop.targets[0])
+    inner = next((n for n in wl.body if isinstance(n, ast.For)), None)
+    if inner is None or un(inner.iter) != "neighbors[%s]" % atom:
+        raise ValueError("unrecognised neighbour loop")
+    other = un(inner.target)
+    stmts = inner.body
+    skip_placed = False
+    if len(stmts) == 1 and isinstance(stmts[0], ast.If) and not stmts[0].orelse:
+        if un(stmts[0].test) == "not placed[%s]" % other:
+            skip_placed = True
+            stmts = stmts[0].body
+        else:
+            raise ValueError("unrecognised guard: " + un(stmts[0].test))
+    texts = [un(n) for n in stmts]
+    known = {"placed[%s] = True" % other, "walk.append((%s, %s))" % (atom, other), "walk.append((%s, %s))" % (other, atom),
+             "stack.append(%s)" % other}
+    if any(t not in known for t in texts):
+        raise ValueError("unrecognised statement in the neighbour loop: %s" % [t for t in texts if t not in known])
+    if not any(t.startswith("walk.append") for t in texts):
+        raise ValueError("neighbour loop emits no bond")
+    spec = [roots_ascending, adj_both, True, skip_placed, "placed[%s] = True" % other in texts,
+            "walk.append((%s, %s))" % (atom, other) in texts, "stack.append(%s)" % other in texts]
+    text = ("(* GENERATED by harness/props/C11.py:translate from mdtraj/core/trajectory.py:_parent_first_bonds -- do not edit *)\n"
+            "Require Import MD.Whole.Model.\n"
+            "Definition gen_walk_spec : walk_spec := mkWalkSpec %s.\n" % " ".join("true" if b else "false" for b in spec))
+    ctx.write_gen("Gen/WholeWalk.v", text)
+    ctx.notes.setdefault("coverage_extra", {})["translated_walk_spec"] = dict(zip(
+        ["roots_ascending", "adj_both", "pop_last", "skip_placed", "mark_on_push", "emit_parent_child", "push_new"], spec))
+
+
 # ----------------------------------------------------------------------------- generator
 def approx_box(cell):
     a, b, c = [v / G for v in cell["lengths"]]
@@ -69,10 +147,34 @@ def gen_cell(rng, kind):
         return {"lengths": [L, L, L], "angles": [90.0, 90.0, 90.0]}
     if kind == "ortho":
         return {"lengths": [rng.randint(2 * G, 5 * G) for _ in range(3)], "angles": [90.0, 90.0, 90.0]}
+    # every pattern of exactly-zero off-diagonal cell entries (monoclinic settings, hexagonal, rhombic dodecahedron, general)
     while True:
-        cell = {"lengths": [rng.randint(2 * G, 5 * G) for _ in range(3)],
-                "angles": [round(rng.uniform(65, 115), 3) for _ in range(3)]}
-        al, be, ga = [math.radians(x) for x in cell["angles"]]
+        L = [rng.randint(2 * G, 5 * G) for _ in range(3)]
+        ang = lambda: round(rng.choice([rng.uniform(65, 88), rng.uniform(92, 115)]), 3)   # noqa: E731
+        pat = rng.choice(["bx", "cx", "cy", "bx_cx", "bx_cy", "cx_cy", "general", "general", "general", "hexagonal", "rhombic-dodecahedron"])
+        if pat == "bx":
+            A = [90.0, 90.0, ang()]
+        elif pat == "cx":
+            A = [90.0, ang(), 90.0]
+        elif pat == "cy":
+            A = [ang(), 90.0, 90.0]
+        elif pat == "bx_cx":
+            be, ga = ang(), ang()
+            A = [math.degrees(math.acos(math.cos(math.radians(be)) * math.cos(math.radians(ga)))), be, ga]
+        elif pat == "bx_cy":
+            A = [ang(), 90.0, ang()]
+        elif pat == "cx_cy":
+            A = [ang(), ang(), 90.0]
+        elif pat == "hexagonal":
+            L[1] = L[0]
+            A = [90.0, 90.0, rng.choice([120.0, 60.0])]
+        elif pat == "rhombic-dodecahedron":
+            L[1] = L[2] = L[0]
+            A = [60.0, 60.0, 90.0]
+        else:
+            A = [ang(), ang(), ang()]
+        cell = {"lengths": L, "angles": A}
+        al, be, ga = [math.radians(x) for x in A]
         v2 = 1 - math.cos(al) ** 2 - math.cos(be) ** 2 - math.cos(ga) ** 2 + 2 * math.cos(al) * math.cos(be) * math.cos(ga)
         if v2 > 0.25:
             return cell
@@ -226,8 +328,9 @@ def coq_codes(ctx, coq):
     for si, sh in enumerate(shards):
         lines = ["From Coq Require Import ZArith List Bool.", "Import ListNotations.",
                  "Require Import MD.Neigh.Model MD.Whole.Model MD.Whole.Run.", "Open Scope Z_scope.",
-                 "Definition cases : list (wcase * list vec) := [", ";\n".join("(%s, %s)" % coq[k] for k in sh), "].",
-                 "Eval vm_compute in (7777, map (fun c => w_code (fst c) (snd c) * 16 + w_split_code (fst c)) cases)."]
+                 "Definition cases : list (wcase * list vec * option (list (list nat))) := [", ";\n".join("(%s, %s, %s)" % coq[k] for k in sh), "].",
+                 "Eval vm_compute in (7777, map (fun c => w_code (fst (fst c)) (snd (fst c)) * 32 + w_split_code (fst (fst c)) + "
+                 "match snd c with Some m => if w_mols_ok (fst (fst c)) m then 0 else 16 | None => 0 end) cases)."]
         path = os.path.join(ctx.tmp, "wcodes_%d_%d.v" % (len(coq), si))
         with open(path, "w") as fh:
             fh.write("\n".join(lines) + "\n")
@@ -337,15 +440,26 @@ def run_cases(ctx, cases):
             ks, res, B, new = recover(c, f, o)
             rec[(ci, f)] = (ks, res, B, new)
             jobs.append((ci, f))
-            coq.append((coq_case(c, f, o), clist(["(%s,%s,%s)" % tuple(cz(v) for v in k) for k in ks])))
+            mols = o.get("molecules")
+            coq.append((coq_case(c, f, o), clist(["(%s,%s,%s)" % tuple(cz(v) for v in k) for k in ks]),
+                        "None" if mols is None or f > 0 else "(Some %s)" % clist([clist([cnat(a) for a in m]) for m in mols])))
     codes, errs = coq_codes(ctx, coq) if coq else ({}, [])
     if errs:
         ctx.break_("correspondence:coqc-evaluation", "\n".join(errs))
     for k in range(len(jobs)):
-        codes.setdefault(k, 3 * 16)      # not evaluated (coqc error): agrees with nothing
+        codes.setdefault(k, 3 * 32)      # not evaluated (coqc error): agrees with nothing
     split_of = {jobs[k]: v % 8 for k, v in codes.items()}
     cert_bad = [jobs[k] for k, v in codes.items() if (v % 16) >= 8]
-    code_of = {jobs[k]: v // 16 for k, v in codes.items()}
+    mols_bad = [jobs[k] for k, v in codes.items() if (v % 32) >= 16]
+    code_of = {jobs[k]: v // 32 for k, v in codes.items()}
+    extra0 = ctx.notes.setdefault("coverage_extra", {})
+    extra0["find_molecules_partitions_compared"] = extra0.get("find_molecules_partitions_compared", 0) + sum(
+        1 for (ci, f) in jobs if f == 0 and outs[ci].get("molecules") is not None)
+    for ci, f in mols_bad:
+        ctx.fail("Topology.find_molecules does not return the connected components of the bond graph", cases[ci],
+                 observed={"molecules": outs[ci].get("molecules"), "bonds": cases[ci]["bonds"]},
+                 expected="Model.find_molecules (Props/C11.v find_molecules_partition_connected)",
+                 tags={"api": "find_molecules", "kind": "wrong partition", "explained_by": None})
     if cert_bad:
         ctx.break_("certificate:tree_order-fails-walk_ok",
                    "the repaired bond walk does not pass the certificate of whole_fixed_order_partial on %d frames, e.g. bonds %s" % (
